@@ -138,12 +138,12 @@ def auth(pw): return {"k": "bcrypt", "pw": pw}
 
 
 def user(name, scopes, a=None, acct=False, groups=None, commands=None, services=None):
-    return {"name": name, "scopes": scopes, "auth": a or dict(NOAUTH), "acct": acct, "groups": groups or [],
+    return {"name": name, "scopes": scopes, "auth": a or dict(NOAUTH), "acct": acct, "acctk": "file", "groups": groups or [],
             "commands": commands or [], "services": services or []}
 
 
 def group(name, a=None, acct=False, commands=None, services=None):
-    return {"name": name, "auth": a or dict(NOAUTH), "acct": acct, "commands": commands or [], "services": services or []}
+    return {"name": name, "auth": a or dict(NOAUTH), "acct": acct, "acctk": "file", "commands": commands or [], "services": services or []}
 
 
 def secret(name, key, prefixes, nohandler=False):
@@ -169,6 +169,8 @@ def base_cfg(rng=None, tag=""):
         # the first group with an authenticator has no accounter: the group loop goes on to the next group
         user("ivan", ["s1"], None, groups=[group("g3", auth(pw("g3"))), g2, g1]),
         user("judy", ["s1"], None, acct=True, groups=[g0, g2, group("g4", auth(pw("g4")), acct=True)]),
+        dict(user("kate", ["s1"], auth(pw("kate")), acct=True), acctk="syslog"),                       # syslog accounter
+        user("liam", ["s1"], auth(pw("liam")), groups=[dict(group("g5", None, acct=True), acctk="syslog"), g1]),   # inherited syslog accounter
     ]
     return {"secrets": [secret("s1", "key-of-scope-one", ["10.1.0.0/16", "2001:db8:1::/48"]),
                         secret("s2", "key-of-scope-two", ["10.2.0.0/16"])],
